@@ -68,7 +68,13 @@ func (c *Counter[T]) Add(v T) {
 		return
 	}
 	c.buf.Add(v)
-	if c.buf.Len() >= c.cap {
+	// A pass keeps each element with probability 1/2, so it may keep them all;
+	// repeat it until the buffer is below its limit again, otherwise the next
+	// new element would push the buffer over the limit.
+	for pass := 0; c.buf.Len() >= c.cap; pass++ {
+		if pass > 0 && c.cap < 2 {
+			break // a limit below 2 cannot be maintained; keep the single pass
+		}
 		// Instead of flipping a coin for each element, grab blocks of 64 random
 		// bits and use them directly, refilling only as needed.
 		var nb, rnd uint64
